@@ -1,4 +1,4 @@
-//@ unit u2c_deletion_build props C01
+//@ unit u2c_deletion_build props C01 C09
 // Unit U2c: how a deletion submitted through the API is prepared (src/database/deletion.rs: DeletionQuery::build, the body of
 // its loop over the entities of the request, rule E14).  What validate_deletion (unit u2_verdicts) decides rests on what this
 // function records: for every reference it removes, the author and the room of the reference's SOURCE ROW and the date the row
@@ -106,6 +106,20 @@ pub open spec fn src_of(del: EntityDeletion, p: Parameters) -> Uid { spec_uid(sp
                 final(deletion_query).edges@.len() > old(deletion_query).edges@.len()
                 && stored_row(src_of(*del, *old(parameters)), del.short_name@) is Some
                 && final(deletion_query).updated_nodes@.last() == (Node { mdate: date, ..stored_row(src_of(*del, *old(parameters)), del.short_name@)->Some_0 }),
+            // [no_replaced_version_without_a_redated_row]{C09} the bucket the re-dated source row LEAVES is recorded for the daily log: (room, entity, modification date) of the STORED version - not the date it is re-dated to -, exactly one record per re-dated row that belongs to a room, none otherwise
+            r is Ok && final(deletion_query).updated_nodes@.len() == old(deletion_query).updated_nodes@.len() ==> final(deletion_query).replaced_versions@ == old(deletion_query).replaced_versions@,
+            // [redated_row_records_the_day_it_leaves]{C09}
+            r is Ok && final(deletion_query).updated_nodes@.len() > old(deletion_query).updated_nodes@.len() ==> ({
+                let row = stored_row(src_of(*del, *old(parameters)), del.short_name@)->Some_0;
+                match row.room_id {
+                    Some(room) => final(deletion_query).replaced_versions@.len() == old(deletion_query).replaced_versions@.len() + 1
+                        && is_prefix(old(deletion_query).replaced_versions@, final(deletion_query).replaced_versions@)
+                        && final(deletion_query).replaced_versions@.last().0 == room
+                        && final(deletion_query).replaced_versions@.last().1@ == row._entity@
+                        && final(deletion_query).replaced_versions@.last().2 == row.mdate,
+                    None => final(deletion_query).replaced_versions@ == old(deletion_query).replaced_versions@,
+                }
+            }),
             // [row_named_for_deletion_is_the_stored_row]{C01} a row named for deletion is the stored row of that id and entity, under the entity name the rights are given on
             r is Ok && final(deletion_query).nodes@.len() > old(deletion_query).nodes@.len() ==>
                 final(deletion_query).nodes@.len() == old(deletion_query).nodes@.len() + 1
